@@ -12,65 +12,77 @@
 (*   callers  : every call into a listed application from an application   *)
 (*              that is not excluded is drawn;                             *)
 (*   indirect : every call between applications collected so far is drawn. *)
-(* Sound: an arrow is a call of the model and touches no excluded          *)
-(* application.  Complete: every call of a listed application to another,  *)
-(* non-excluded application is drawn.                                      *)
+(* An application tagged ~human is never a seed and never a target; a call *)
+(* to an endpoint tagged ~hidden is not drawn (its target application is   *)
+(* still collected).                                                       *)
+(* Sound: an arrow is a call of the model, touches no excluded application *)
+(* and targets neither a human actor nor a hidden endpoint.  Complete:     *)
+(* every call of a listed, non-human application to another application    *)
+(* that is not excluded, human or hidden is drawn.                         *)
 (***************************************************************************)
 EXTENDS Integers, Sequences, FiniteSets, TLC
 
-CONSTANT Apps
+CONSTANTS Apps, MaxMarked    \* MaxMarked bounds |human| + |hid| in the model-checked configuration
 
 VARIABLES calls,    \* SUBSET (Apps \X Apps): call statements (source, target)
           listed, excl, pass,
+          human,    \* applications tagged ~human
+          hid,      \* applications whose (only) endpoint is tagged ~hidden
           final,    \* applications collected so far
           arrows,   \* arrows drawn so far
           todo,     \* pass-through applications still to be walked
           walked,   \* pass-through applications already walked
           phase
-vars == <<calls, listed, excl, pass, final, arrows, todo, walked, phase>>
+vars == <<calls, listed, excl, pass, human, hid, final, arrows, todo, walked, phase>>
 
 Init == /\ calls \in SUBSET (Apps \X Apps)
         /\ listed \in SUBSET Apps /\ excl \in SUBSET Apps /\ pass \in SUBSET Apps
         /\ listed \cap excl = {}
-        /\ final = listed /\ arrows = {} /\ todo = {} /\ walked = {} /\ phase = "direct"
+        /\ human \in SUBSET Apps /\ hid \in SUBSET Apps /\ Cardinality(human) + Cardinality(hid) <= MaxMarked
+        /\ final = listed \ human /\ arrows = {} /\ todo = {} /\ walked = {} /\ phase = "direct"
+
+\* a call is drawn only if its target is no human actor and its target endpoint is not hidden
+Drawable(c) == c[2] \notin human /\ c[2] \notin hid
 
 \* draw the calls of application a whose target is not excluded; pass-through targets are queued
 Expand(a) ==
-  LET out == {c \in calls : c[1] = a /\ c[2] \notin excl} IN
-  /\ arrows' = arrows \cup out
+  LET out == {c \in calls : c[1] = a /\ c[2] \notin excl /\ c[2] \notin human} IN
+  /\ arrows' = arrows \cup {c \in out : Drawable(c)}
   /\ final' = final \cup {c[2] : c \in out}
   /\ todo' = (todo \cup ({c[2] : c \in out} \cap pass)) \ (walked \cup {a})
 
 Direct == /\ phase = "direct"
-          /\ LET out == {c \in calls : c[1] \in listed /\ c[2] \notin excl} IN
-             /\ arrows' = arrows \cup out
+          /\ LET out == {c \in calls : c[1] \in listed \ human /\ c[2] \notin excl /\ c[2] \notin human} IN
+             /\ arrows' = arrows \cup {c \in out : Drawable(c)}
              /\ final' = final \cup {c[2] : c \in out}
              /\ todo' = {c[2] : c \in out} \cap pass
           /\ phase' = "walk"
-          /\ UNCHANGED <<calls, listed, excl, pass, walked>>
+          /\ UNCHANGED <<calls, listed, excl, pass, human, hid, walked>>
 
 Walk == /\ phase = "walk" /\ todo # {}
         /\ \E a \in todo : Expand(a) /\ walked' = walked \cup {a}
-        /\ UNCHANGED <<calls, listed, excl, pass, phase>>
+        /\ UNCHANGED <<calls, listed, excl, pass, human, hid, phase>>
 
 Callers == /\ phase = "walk" /\ todo = {}
-           /\ LET inc == {c \in calls : c[2] \in listed /\ c[1] \notin excl} IN
-              /\ arrows' = arrows \cup inc
+           /\ LET inc == {c \in calls : c[2] \in listed \ human /\ c[1] \notin excl} IN
+              /\ arrows' = arrows \cup {c \in inc : Drawable(c)}
               /\ final' = final \cup {c[1] : c \in inc}
            /\ phase' = "indirect"
-           /\ UNCHANGED <<calls, listed, excl, pass, todo, walked>>
+           /\ UNCHANGED <<calls, listed, excl, pass, human, hid, todo, walked>>
 
 Indirect == /\ phase = "indirect"
-            /\ arrows' = arrows \cup {c \in calls : c[1] \in final /\ c[2] \in final}
+            /\ arrows' = arrows \cup {c \in calls : c[1] \in final /\ c[2] \in final /\ Drawable(c)}
             /\ phase' = "done"
-            /\ UNCHANGED <<calls, listed, excl, pass, final, todo, walked>>
+            /\ UNCHANGED <<calls, listed, excl, pass, human, hid, final, todo, walked>>
 
 Next == Direct \/ Walk \/ Callers \/ Indirect
 Spec == Init /\ [][Next]_vars /\ WF_vars(Next)
 
 \* --- properties, stated on any set of arrows ---------------------------------
-SoundA(ar, cs, ex) == \A a \in ar : a \in cs /\ a[1] \notin ex /\ a[2] \notin ex
-CompleteA(ar, cs, ls, ex) == \A c \in cs : (c[1] \in ls /\ c[2] # c[1] /\ c[2] \notin ex) => c \in ar
+\* hm = human actors, hd = applications with a hidden endpoint
+SoundA(ar, cs, ex, hm, hd) == \A a \in ar : a \in cs /\ a[1] \notin ex /\ a[2] \notin ex /\ a[2] \notin hm /\ a[2] \notin hd
+CompleteA(ar, cs, ls, ex, hm, hd) ==
+  \A c \in cs : (c[1] \in ls \ hm /\ c[2] # c[1] /\ c[2] \notin ex /\ c[2] \notin hm /\ c[2] \notin hd) => c \in ar
 
 \* --- the Mermaid generator of the same diagram kind (pkg/mermaid/integrationdiagram) ---------
 \* It has no views: the full diagram draws every calling pair of the model once (the project application included);
@@ -80,8 +92,8 @@ ReachFrom(cs, S, n) == IF n = 0 THEN S ELSE ReachFrom(cs, S \cup {c[2] : c \in {
 MermaidFull(cs) == cs
 MermaidOf(cs, a) == {c \in cs : c[1] \in ReachFrom(cs, {a}, Cardinality(cs) + 1)}
 
-Sound == SoundA(arrows, calls, excl)
-Complete == phase = "done" => CompleteA(arrows, calls, listed, excl)
+Sound == SoundA(arrows, calls, excl, human, hid)
+Complete == phase = "done" => CompleteA(arrows, calls, listed, excl, human, hid)
 \* pass-through cycles end
 Terminates == <>(phase = "done")
 =============================================================================
